@@ -197,6 +197,27 @@ class G:
             return f"({s}.Count() == 0 or {val} > {c})", f"(False or {val} > {c})"
         return f"({s}.Count() > 0 and {val} > {c})", f"(True and {val} > {c})"
 
+    def firstseq_template(self, ev):
+        """First() of a sequence of FILTERED sequences, continued by a Select / Where: what follows the First() works on the elements the inner
+        filter let through only (the inner Where is the guard of the partial operation that follows)"""
+        s, _ = self.seq(ev)
+        acc, banks = self.p["coll"]
+        b = self.pick(banks)
+        self.uses.append((acc, b))
+        inner = f"{ev}.{acc}({b!r})"
+        c = self.const()
+        if self.p["nonnull"] and self.d(st.booleans()):
+            l, ms = self.p["link"]
+            guard, part = f"isNonnull(k.{l}())", f"k.{l}().{self.pick(ms)}()"
+        else:
+            v = self.pick(self.p["vec"])
+            kk = self.pick([0, 0, 1])
+            guard, part = f"k.{v}().Count() > {kk}", self.pick([f"k.{v}()[{kk}]", f"k.{v}()[{kk}]", f"k.{v}().First()"])
+        cont = self.pick([f".Select(lambda k: {part})", f".Select(lambda k: {part})", f".Where(lambda k: {part} > {c}).Select(lambda k: k.{self.pick(self.p['num'])}())",
+                          f".Select(lambda k: {part} * 2).Where(lambda q: q > {c})"])
+        self.labels.add("First-of-filtered-sequences-continued")
+        mk = lambda g_: f"{s}.Select(lambda j: {inner}.Where(lambda k: {g_})).First(){cont}"
+        return mk(guard), mk("True")
 
     def cross_first_template(self, obj, ev="e"):
         """First() over another event collection (usually filtered) inside the loop over the main one; the value may come from the outer element only"""
@@ -258,9 +279,11 @@ def cases(draw, backend):
     if level.startswith("event"):
         for ci in range(ncols):
             g.want = wants[ci]
-            k = draw(st.sampled_from(["first", "first", "inner"]))
+            k = draw(st.sampled_from(["first", "first", "inner", "inner", "firstseq"]))
             if k == "first":
                 cols.append(g.first_template("e"))
+            elif k == "firstseq":
+                cols.append(g.firstseq_template("e"))
             else:
                 # a 1-D column of per-object partial values, possibly guarded by a Where
                 s, ms = g.seq("e", main_only=True)
